@@ -112,6 +112,9 @@ pub fn dict0() -> GDict {
             d.add(GDef { code, vendor, name: format!("Set{}v{}", code, k), ty: *ty, m: k % 2 == 0 });
         }
     }
+    // two definitions that share a name (different pair, different type): a name identifies nothing, the pair does
+    d.add(GDef { code: 310, vendor: Some(111), name: "Shared-Name".into(), ty: T_U64, m: true });
+    d.add(GDef { code: 311, vendor: None, name: "Shared-Name".into(), ty: T_UTF8, m: false });
     d.add(GDef { code: 4294967295, vendor: None, name: "MaxCode".into(), ty: T_OCT, m: false });
     d.add(GDef { code: 0, vendor: Some(0), name: "Zero".into(), ty: T_U64, m: true });
     d.add(GDef { code: 200, vendor: None, name: "Odd".into(), ty: T_UNKNOWN, m: false });
@@ -426,6 +429,16 @@ pub fn edge_v6(r: &mut Rng) -> [u8; 16] {
     b
 }
 
+/// DiameterURI values that look like URIs (RFC 6733 4.3.1), well formed and not: schemes, hosts, ports at and beyond the
+/// 16-bit range, parameters - to the codec they are octets like any other
+pub fn uri_text(r: &mut Rng) -> String {
+    let scheme = *r.pick(&["aaa://", "aaas://", "AAA://", "aaa:/", "http://", ""]);
+    let host = *r.pick(&["host.example.com", "h", "", "[2001:db8::1]", "192.0.2.1", "a..b", "xn--bcher-kva.example", "host.example.com."]);
+    let port = *r.pick(&["", ":3868", ":0", ":65535", ":65536", ":70000", ":99999", ":4294967295", ":4294967296", ":99999999999999999999", ":", ":-1", ":38 68", ":+3868", ":0x10"]);
+    let tail = *r.pick(&["", ";transport=tcp", ";transport=sctp;protocol=diameter", ";transport=", ";protocol=radius", ";;", ";transport=udp;transport=tcp", "/path?x=1"]);
+    format!("{}{}{}{}", scheme, host, port, tail)
+}
+
 pub fn time_in_range(r: &mut Rng) -> i64 {
     const E: [i64; 7] = [0, 1, 2208988799, 2208988800, 2208988801, 4294967294, 4294967295];
     let ntp = if r.chance(1, 2) { *r.pick(&E) } else { r.below(1 << 32) as i64 };
@@ -449,7 +462,7 @@ pub fn leaf(r: &mut Rng, ty: usize, len: Option<usize>) -> GV {
         T_IPV4 => GV::Ipv4(edge_u32(r).to_be_bytes()),
         T_IPV6 => GV::Ipv6(if r.chance(1, 2) { edge_v6(r) } else { ((edge_u64(r) as u128) << 64 | edge_u64(r) as u128).to_be_bytes() }),
         T_IDENT => GV::Ident(text(r, n)),
-        T_URI => GV::Uri(r.bytes(n)),
+        T_URI => GV::Uri(if len.is_none() && r.chance(1, 2) { uri_text(r).into_bytes() } else { r.bytes(n) }),
         T_ENUM => GV::Enum(edge_u32(r) as i32),
         T_F32 => GV::F32(edge_f32(r)),
         T_F64 => GV::F64(edge_f64(r)),
@@ -523,6 +536,7 @@ pub struct Out<'a> {
     pub w: &'a mut dyn Write,
     pub cases: usize,
     pub clis: usize,
+    pub ios: usize,
 }
 impl<'a> Out<'a> {
     pub fn case(&mut self, label: &str) {
@@ -532,14 +546,27 @@ impl<'a> Out<'a> {
     pub fn line(&mut self, l: &str) {
         // every third client scenario is run by an application that looks at each response future once, then hands it to
         // another task which waits for it there (`amode 1`)
+        // ... and every stream scenario takes its turn with streams that advertise vectored writes (bit 0) and / or fill the
+        // reader's buffer the way TLS streams do, `initialize_unfilled` + `advance` (bit 1): `iomode`
+        let streamy = l.starts_with("cli ") || l.starts_with("clim ") || l.starts_with("sdec ") || l.starts_with("senc ") || l.starts_with("serve ");
+        let mut pre = String::new();
+        let mut post = String::new();
+        if streamy {
+            self.ios += 1;
+            let m = [0u32, 1, 0, 2, 0, 3][self.ios % 6];
+            if m != 0 {
+                pre.push_str(&format!("iomode {}\n", m));
+                post.push_str("\niomode 0");
+            }
+        }
         if l.starts_with("cli ") {
             self.clis += 1;
             if self.clis % 3 == 2 {
-                writeln!(self.w, "amode 1\n{}\namode 0", l).unwrap();
-                return;
+                pre.push_str("amode 1\n");
+                post.insert_str(0, "\namode 0");
             }
         }
-        writeln!(self.w, "{}", l).unwrap();
+        writeln!(self.w, "{}{}{}", pre, l, post).unwrap();
     }
     pub fn lines(&mut self, ls: &[String]) {
         for l in ls {
@@ -600,6 +627,14 @@ fn rand_history(o: &mut Out, r: &mut Rng, d: &GDict, probes: &dyn Fn(&mut Out), 
     for _ in 0..steps {
         let mut ls = vec![];
         match r.below(12) {
+            0..=5 if r.chance(1, 40) && !d.by_type(T_OCT).is_empty() => {
+                // now and then a value far larger than any scratch buffer an encoder might collect small writes in
+                let oc = d.by_type(T_OCT)[0].clone();
+                let n = *r.pick(&[8184usize, 8192, 9000, 20000, 70001]);
+                ls.push(format!("val octn {} {:02x}", n, r.below(256)));
+                ls.push(format!("add_avp {} {} 0", oc.code, vend(oc.vendor)));
+                m.avps.push(GA { code: oc.code, vendor: oc.vendor, flags: 0, v: GV::Oct(vec![]) });
+            }
             0..=5 => {
                 let dl = r.below(4) as usize;
                 let mut a = avp(r, d, dl, 3);
@@ -1282,6 +1317,16 @@ fn lying_fixed_frames(r: &mut Rng, d: &GDict, n: usize) -> Vec<Vec<u8>> {
 
 fn gen_c04(o: &mut Out, r: &mut Rng, d: &GDict, tier: &str) {
     let thorough = tier == "thorough";
+    // another thread is busy with the library's public process-wide default dictionary while frames with groups in groups
+    // are decoded, displayed and re-encoded here: none of that may wait for it
+    {
+        o.case("decode while the default dictionary is being written");
+        o.line("gdstorm 1500");
+        for _ in 0..(if thorough { 20000 } else { 1500 }) {
+            let m = message(r, d, 4, 4);
+            o.line(&format!("decq {}", hex(&m.encode(&mut None))));
+        }
+    }
     let corpus = corpus_messages(r, d);
     // well-formed frames (what is returned must display, inspect, clone and re-encode without panicking)
     let n_good = if thorough { 40000 } else { 4000 };
@@ -1576,6 +1621,26 @@ fn gen_c05(o: &mut Out, r: &mut Rng, d: &GDict, tier: &str) {
                 _ => format!("p,a{},p,a{},p,", k / 2 + 1, k - k / 2 - 1).replace("a0,p,", ""),
             };
             o.line(&format!("senc {}{}", pre, end));
+        }
+    }
+    // (1b') messages larger than any slice or record size an encoder might work in, through the stream codec over streams
+    // that take 1000 / 16383 / 16384+1 octets at a time, and over one that fails somewhere inside
+    for big in [20_000usize, 40_000, 70_000] {
+        o.case(&format!("stream big len={}", big));
+        o.line("new 272 4 0 1 2");
+        o.line("clear");
+        o.line(&format!("val octn {} 6b", big));
+        o.line(&format!("add_avp {} - 0", d.by_type(T_OCT)[0].code));
+        let total = 28 + big + pad(big);
+        o.line("senc -");
+        o.line(&format!("senc {}", vec!["a1000"; total / 1000 + 1].join(",")));
+        o.line(&format!("senc {}", vec!["a16383"; total / 16383 + 1].join(",")));
+        o.line(&format!("senc a16384,a1,a{}", total));
+        o.line(&format!("senc a16384,a{},f", total - 16384 - 5));
+        o.line("senc -");
+        o.line("ench");
+        for k in [0usize, 16383, 16384, 16385, total - 1, total] {
+            o.line(&format!("encw {} {} 0 err", k, [0usize, 16, 1000][k % 3]));
         }
     }
     // (1c) a group that is asked for its length while it is being filled (a size budget), members of every length residue
@@ -1989,6 +2054,16 @@ fn gen_c07(o: &mut Out, r: &mut Rng, d: &GDict, tier: &str) {
     for _ in 0..(if thorough { 6000 } else { 60 }) {
         lens.push(r.below(1 << 24) as usize);
     }
+    // multiples of the sizes a reader might work in (4, 16, 64 KiB), plus the 4-octet prefix or the 20-octet header
+    for step in [4096usize, 16384, 65536] {
+        for k in (if thorough { vec![1usize, 2, 3, 7, 8, 15] } else { vec![1usize, 2, 15] }) {
+            for plus in [0usize, 4, 20] {
+                if k * step + plus <= (1 << 20) {
+                    lens.push(k * step + plus);
+                }
+            }
+        }
+    }
     let _ = d;
     let mut pairs: Vec<(u8, usize)> = vec![];
     for l in lens {
@@ -2022,7 +2097,8 @@ fn gen_c07(o: &mut Out, r: &mut Rng, d: &GDict, tier: &str) {
                 o.line(&format!("sdec 1 d:{}", hex(&f)));
             }
             // exactly as announced, and more than announced (only where the amounts are moderate, plus the 1 MiB boundary)
-            if l >= 20 && (l <= 4096 || (b0 == 1 && (l == (1 << 20) || l == (1 << 20) - 1 || l == (1 << 20) - 4))) {
+            let stepped = l > 4096 && (l % 4096 == 0 || l % 4096 == 4 || l % 4096 == 20);
+            if l >= 20 && (l <= 4096 || (b0 == 1 && (l == (1 << 20) || l == (1 << 20) - 1 || l == (1 << 20) - 4 || (stepped && l <= (1 << 20))))) {
                 let mut f = hdr.clone();
                 f.resize(l, 0);
                 o.line(&format!("sdec 1 d:{}", hex(&f)));
@@ -2422,6 +2498,15 @@ fn gen_c13(o: &mut Out, _r: &mut Rng, tier: &str) {
                             let cmd = [272u32, 257, 280, 282][id % 4];
                             o.case(&format!("cell ctls={} verify={} stls={} cert={} addr={}", ctls, verify, stls, cert, addr));
                             o.line(&format!("tls ctls={} verify={} stls={} cert={} addr={} id={} cmd={}", ctls, verify, stls, cert, addr, id, cmd));
+                            if cert == "good" && addr == "ip" && verify == 1 && !(ctls == 1 && stls == 0) {
+                                // the same cell reached through well-known port numbers (Diameter, Diameter over TLS, HTTPS):
+                                // the configuration decides how the connection is protected, the port number does not
+                                for port in [3868u16, 5658, 443] {
+                                    id += 1;
+                                    o.case(&format!("cell ctls={} verify={} stls={} cert={} addr={} port={}", ctls, verify, stls, cert, addr, port));
+                                    o.line(&format!("tls ctls={} verify={} stls={} cert={} addr={} id={} cmd={} port={}", ctls, verify, stls, cert, addr, id, cmd, port));
+                                }
+                            }
                             if stls == 1 && ctls == 0 && cert == "good" {
                                 // several clear-text peers arriving at the same moment
                                 id += 1;
@@ -2434,6 +2519,10 @@ fn gen_c13(o: &mut Out, _r: &mut Rng, tier: &str) {
                                 id += 1;
                                 o.case(&format!("cell ctls={} verify={} stls={} cert={} addr={} wn=1", ctls, verify, stls, cert, addr));
                                 o.line(&format!("tls ctls={} verify={} stls={} cert={} addr={} id={} cmd={} wn=1", ctls, verify, stls, cert, addr, id, cmd));
+                                // ... and a certificate for another name whose ISSUER happens to be called like the host
+                                id += 1;
+                                o.case(&format!("cell ctls={} verify={} stls={} cert={} addr={} wn=2", ctls, verify, stls, cert, addr));
+                                o.line(&format!("tls ctls={} verify={} stls={} cert={} addr={} id={} cmd={} wn=2", ctls, verify, stls, cert, addr, id, cmd));
                             }
                         }
                     }
@@ -2904,7 +2993,10 @@ fn gen_c12(o: &mut Out, r: &mut Rng, d: &GDict, tier: &str) {
                     }
                 }
                 let late = if p % 3 == 0 { (9000000 + p).to_string() } else { "-".to_string() };
-                o.case(&format!("client cut={} end={} n={} expect=any silent=0", p, end, n));
+                // `complete`: how many answers had arrived completely when the stream ended - no more futures than that may
+                // hold an answer (what arrived in part was not sent)
+                let complete = boundaries.iter().filter(|b| **b > 0 && **b <= p).count();
+                o.case(&format!("client cut={} end={} n={} complete={} expect=any silent=0", p, end, n, complete));
                 o.line(&format!("cli {} {} {} {} {}", sends.join(","), rd.join(","), if p % 2 == 0 { "-" } else { "a5,p,p" }, ans.join(","), late));
             }
         }
@@ -2942,6 +3034,32 @@ fn gen_c12(o: &mut Out, r: &mut Rng, d: &GDict, tier: &str) {
                     rd.push(if (fi + place) % 2 == 0 { "e".into() } else { "f".to_string() });
                     o.case(&format!("client unsolicited k={} place={} n={} expect=any silent=0", k, place, n));
                     o.line(&format!("cli {} {} - {} -", sends.join(","), rd.join(","), all.join(",")));
+                    if *k <= 2 {
+                        // ... and everything in ONE delivery (a reader that takes several messages out of one read must
+                        // still treat them one by one, in order)
+                        let joined: String = rd[1..rd.len() - 1].iter().map(|e| e.trim_start_matches("d:").to_string()).collect::<Vec<_>>().join("");
+                        o.line(&format!("cli {} {},d:{},{} - {} -", sends.join(","), rd[0], joined, rd[rd.len() - 1], all.join(",")));
+                    }
+                }
+            }
+        }
+        // (1d) the last request cannot be written out (the peer has stopped reading: no room, for ever) when the connection
+        // ends or goes wrong on the reading side: the futures of the earlier requests - and of the stalled one - complete
+        if n >= 2 && (ci < 6 || thorough) {
+            for end in ["e", "f", "d:01000003ffffffff,e"] {
+                for answered in [0usize, 1] {
+                    let first: usize = lens[..n - 1].iter().map(|l| request_size(*l)).sum();
+                    let mut wv: Vec<String> = lens[..n - 1].iter().map(|l| format!("a{}", request_size(*l))).collect();
+                    wv.push(format!("a{}", [1usize, 7, 19][ci % 3]));
+                    wv.push("r99999999".into());
+                    let mut rd = vec![format!("w:{}", first + 1)];
+                    for f in frames.iter().take(answered) {
+                        rd.push(format!("d:{}", hex(f)));
+                    }
+                    rd.push("t:1000".into());
+                    rd.push(end.to_string());
+                    o.case(&format!("client stalled-send n={} answered={} expect=any silent=0", n, answered));
+                    o.line(&format!("cli {} {} {} {} -", sends.join(","), rd.join(","), wv.join(","), if answered > 0 { ans[..answered].join(",") } else { "-".to_string() }));
                 }
             }
         }
@@ -3079,8 +3197,9 @@ fn gen_c14(o: &mut Out, r: &mut Rng, tier: &str) {
     let all_vendors = [None, Some(0u32), Some(1), Some(2), Some(3), Some(5), Some(65541), Some(10415), Some(4294967295)];
     // (names that differ only in case or in a trailing blank are different names)
     let names = ["A", "a", "B", "C", "Twin", "twin", "Sess-Id", "Sess-Id ", "名前 x"];
-    let app_names = ["App A", "app a", "App B", "Base"];
-    let cmd_names = ["Cmd-A", "cmd-a", "Cmd-B", "CC", "CC "];
+    // (an application and a command may carry the same name: "Accounting" is both in RFC 6733 - two tables, two namespaces)
+    let app_names = ["App A", "app a", "App B", "Base", "CC", "Cmd-A"];
+    let cmd_names = ["Cmd-A", "cmd-a", "Cmd-B", "CC", "CC ", "Base", "App A"];
     // a document (its lines without the closing `doc_end`); kept by the history so that the very same document can be
     // supplied again later - the latest supply wins, also when its text was seen before
     let rand_doc = |r: &mut Rng, codes: &[u32], vendors: &[Option<u32>]| -> Vec<String> {
@@ -3271,6 +3390,11 @@ fn gen_c15(o: &mut Out, r: &mut Rng, _tier: &str, extra: &[String]) {
                 o.line("doc_begin");
                 o.line(&format!("app 4 {}", hexd(b"T")));
                 // (enumeration items under the data element are documentation: they never change the type)
+                if twins {
+                    // the pair is declared twice in the same document, first with another (recognised) type: the later
+                    // declaration is the one in force - also when its type name is not one the library knows
+                    o.line(&doc_avp_line("X-Earlier", tcode, scope, None, if tn == "UTF8String" { "Unsigned32" } else { "UTF8String" }));
+                }
                 o.line(&format!("{} {}", doc_avp_line("X", tcode, scope, Some("M"), tn), if twins { 2 } else { 0 }));
                 if twins {
                     // the same code under other vendors, typed differently, and a neighbouring code
@@ -3284,7 +3408,7 @@ fn gen_c15(o: &mut Out, r: &mut Rng, _tier: &str, extra: &[String]) {
                 o.line(&doc_avp_line("G5", 601, Some(5), None, "Grouped"));
                 o.line(&doc_avp_line("G6", 602, Some(6), None, "Grouped"));
                 o.line("doc_end load");
-                for (wire, fl) in [(None, 0x40u8), (Some(0u32), 0x40), (Some(5u32), 0x40), (Some(6u32), 0x40), (Some(7u32), 0x40), (None, 0), (Some(0), 0), (Some(5), 0), (Some(6), 0x20), (Some(7), 0)] {
+                for (wire, fl) in [(None, 0x40u8), (Some(0u32), 0x40), (Some(5u32), 0x40), (Some(6u32), 0x40), (Some(7u32), 0x40), (None, 0), (Some(0), 0), (Some(5), 0), (Some(6), 0x20), (Some(7), 0), (None, 0x20), (None, 0x60), (Some(0), 0x60), (Some(5), 0x20), (Some(6), 0x60)] {
                     // (with and without the M bit: "optional" is no licence to guess either)
                     let mut m = header(r);
                     let a = GA { code: tcode, vendor: wire, flags: fl, v: value_for(r, ty) };
@@ -3359,6 +3483,24 @@ fn gen_c15(o: &mut Out, r: &mut Rng, _tier: &str, extra: &[String]) {
     }
 }
 
+/// values within a few octets of the 24-bit AVP length limit, built by name: a vendor-less definition has an 8-octet header, a
+/// vendor definition a 12-octet one, and both may be filled to the last octet (AVP Length 0xffffff at most)
+fn gen_c16_big(o: &mut Out, d: &GDict) {
+    let defs: Vec<&GDef> = [None, Some(99u32)].iter().filter_map(|v| d.defs.iter().find(|x| x.ty == T_OCT && x.vendor == *v && d.unique_name(x))).collect();
+    for def in defs {
+        let hl = if def.vendor.is_some() { 12usize } else { 8 };
+        for n in [16777215 - hl - 4, 16777215 - hl - 1, 16777215 - hl, 16777215 - hl + 1] {
+            o.case(&format!("big by name vendor={} value={}", vend(def.vendor), n));
+            o.line("new 272 4 0 1 2");
+            o.line("clear");
+            o.line(&format!("val octn {} 41", n));
+            o.line(&format!("avp_name {}", hexd(def.name.as_bytes())));
+            o.line("vlen");
+            o.line("clear");
+        }
+    }
+}
+
 /// the definition `values().find(name)` meets first in key order (all vendor-less keys sort before vendor keys)
 fn first_by_name<'a>(d: &'a GDict, name: &str) -> Option<&'a GDef> {
     d.defs.iter().filter(|x| x.name == name).min_by_key(|x| (x.vendor.is_some(), x.code, x.vendor.unwrap_or(0)))
@@ -3382,6 +3524,10 @@ fn gen_c16(o: &mut Out, r: &mut Rng, tier: &str, extra: &[String]) {
                 // first-in-key-order rule, and a name no live definition carries must fail
                 let ty = *r.pick(&[T_U32, T_UTF8, T_OCT, T_I32]);
                 o.line(&format!("dadd {} {} {} {} {}", r.pick(&codes), vend(*r.pick(&vendors)), hexd(r.pick(&names).as_bytes()), ty_name(ty), r.below(2)));
+                // the dictionary object is fresh now: several threads look names up in it at the same moment
+                for n in names.iter().take(2) {
+                    o.line(&format!("parname 8 {}", hexd(n.as_bytes())));
+                }
                 // a message holds the dictionary it was created with: create it after the dictionary changed
                 o.line("new 272 4 0 1 2");
                 for n in names {
@@ -3466,6 +3612,9 @@ fn gen_c16(o: &mut Out, r: &mut Rng, tier: &str, extra: &[String]) {
                 o.line(&format!("add_avp {} {} {}", def.code, vend(def.vendor), if def.m { 0x40 } else { 0 }));
                 o.line("enc");
             }
+        }
+        if i == 0 {
+            gen_c16_big(o, d);
         }
         // unknown names: failure changes nothing (AVP list, reported length, encoding)
         let n_unknown = if thorough { 8000 } else { 200 };
@@ -3570,6 +3719,15 @@ fn gen_c17(o: &mut Out, r: &mut Rng, tier: &str) {
                 o.line(&format!("sweep {} {} {} {}", t, b << 16, 1u64 << 16, 1u64 << 12));
             }
         }
+        // several threads decode and encode at the same moment, each in its own part of the range (for Time: its own
+        // days): what a value means does not depend on what another thread is doing
+        for round in 0..(if thorough { 40 } else { 6 }) {
+            let lo = (r.below(1 << 12)) << 20;
+            o.case(&format!("psweep {} round {}", t, round));
+            // 8 blocks of 2^14 values, 2^17 apart (for Time: a day and a half): one thread each
+            o.line(&format!("psweep {} {} {} {} 8", t, lo, 8u64 << 14, 1u64 << 14));
+            o.line(&format!("psweep {} {} {} {} 8", t, lo, 8u64 << 17, 1u64 << 17).replace(&format!("{} 8", 1u64 << 17), &format!("{} 8", 1u64 << 17)));
+        }
     }
     for t in t8 {
         let mut vals: Vec<u64> = vec![0, 1, 0xff, 0x100, 0xffffffff, 0x100000000, 0x7fffffffffffffff, 0x8000000000000000, 0x8000000000000001, 0xfffffffffffffffe, 0xffffffffffffffff];
@@ -3607,7 +3765,7 @@ fn gen_c17(o: &mut Out, r: &mut Rng, tier: &str) {
 pub fn generate(family: &str, seed: u64, tier: &str, extra: &[String], w: &mut dyn Write) {
     let mut r = Rng::new(seed ^ family.bytes().fold(0u64, |a, b| a.wrapping_mul(131).wrapping_add(b as u64)));
     let thorough = tier == "thorough";
-    let mut o = Out { w, cases: 0, clis: 0 };
+    let mut o = Out { w, cases: 0, clis: 0, ios: 0 };
     let d0 = dict0();
     match family {
         "c01" | "c18" | "c16h" => {
@@ -3644,6 +3802,25 @@ pub fn generate(family: &str, seed: u64, tier: &str, extra: &[String], w: &mut d
                 m.ops(&mut r, &mut ls);
                 o.lines(&ls);
                 probes(&mut o);
+            }
+            // positions beyond 65535: tens of thousands of AVPs of one kind in front of the first (and only) AVPs of others
+            if family == "c18" {
+                for k in [65534usize, 65535, 65536, 70000] {
+                    let member = GA { code: 14, vendor: None, flags: 0x40, v: GV::U32(7) };
+                    let mut m = header(&mut r);
+                    m.avps = vec![member; k];
+                    for c in [264u32, 268, 263, 296] {
+                        if let Some(def) = d0.defs.iter().find(|x| x.code == c && x.vendor.is_none()) {
+                            m.avps.push(avp_of(&mut r, &d0, def, 0, 0));
+                        }
+                    }
+                    o.case(&format!("late first occurrence k={}", k));
+                    o.line(&format!("decode {}", hex(&m.encode(&mut None))));
+                    for c in [264u32, 268, 263, 296, 14, 1] {
+                        o.line(&format!("get {}", c));
+                    }
+                    o.line("acc");
+                }
             }
             // repeats: messages and groups drawn from two or three definitions only, so that the same AVP occurs
             // several times with others in between; built through the API, and decoded from the wire (then extended)
@@ -3786,6 +3963,12 @@ pub fn generate(family: &str, seed: u64, tier: &str, extra: &[String], w: &mut d
         }
         "c09" => {
             emit_dict(o.w, &d0);
+            // a connection lost before the accept loop has even picked it up (offset 0, reset): the listener goes on
+            // serving the peers that come later
+            for tls in [0, 1] {
+                o.case(&format!("listener reset-in-backlog tls={}", tls));
+                o.line(&format!("lsn tls={} good=2 reqs=3 fault=reset when=before nfaulty=40", tls));
+            }
             gen_c08(&mut o, &mut r, &d0, tier, true);
         }
         "c11" => {
@@ -3820,7 +4003,9 @@ pub fn generate(family: &str, seed: u64, tier: &str, extra: &[String], w: &mut d
             gen_dict_objects(&mut o);
         }
         "c15" => gen_c15(&mut o, &mut r, tier, extra),
-        "c16" => gen_c16(&mut o, &mut r, tier, extra),
+        "c16" => {
+            gen_c16(&mut o, &mut r, tier, extra);
+        }
         "c05" => {
             emit_dict(o.w, &d0);
             gen_c05(&mut o, &mut r, &d0, tier);
